@@ -46,6 +46,7 @@ class Summary:
         self.func = func
         self.returns = []      # (guard tuple, term, node)
         self.loop_init = {}    # (name, loop id) -> value at loop entry
+        self.defs = {}         # abstracted local -> list of defining terms
         self.events = []
         self.env = {}
         self.heap = {}
@@ -71,7 +72,8 @@ class Summary:
 class Eval:
     MAX_DEPTH = 3
 
-    def __init__(self, repo, func, bindings=None, config=None, inline=(), depth=0, counter=None, self_term=None, heap=None):
+    def __init__(self, repo, func, bindings=None, config=None, inline=(), depth=0, counter=None, self_term=None, heap=None,
+                 abstract=()):
         self.repo = repo
         self.func = func
         self.config = config or {}
@@ -83,6 +85,7 @@ class Eval:
         self.guard = []
         self.try_stack = []
         self.summary = Summary(func)
+        self.abstract = set(abstract)     # locals kept symbolic ('$name'); their definitions go to summary.defs
         self.kwargs_name = None
         a = func.node.args
         names = [x.arg for x in a.posonlyargs + a.args + a.kwonlyargs]
@@ -232,6 +235,9 @@ class Eval:
     def assign(self, target, v, st, aug=False):
         if isinstance(target, ast.Name):
             self.emit("assign", st, name=target.id, value=v, old=self.env.get(target.id), aug=aug)
+            if target.id in self.abstract:
+                self.summary.defs.setdefault(target.id, []).append(v)
+                v = T.sym("$" + target.id)
             self.env[target.id] = v
         elif isinstance(target, (ast.Tuple, ast.List)):
             n = len(target.elts)
@@ -1049,12 +1055,12 @@ def simplify_call(fname, recv, args, kw):
 _cache = {}
 
 
-def summarize(repo, qualname, config=None, inline=(), bindings=None, heap=None):
+def summarize(repo, qualname, config=None, inline=(), bindings=None, heap=None, abstract=()):
     key = (id(repo), qualname, tuple(sorted((config or {}).items())), tuple(sorted(inline)),
-           tuple(sorted((bindings or {}).items())), tuple(sorted((heap or {}).items(), key=repr)))
+           tuple(sorted((bindings or {}).items())), tuple(sorted((heap or {}).items(), key=repr)), tuple(sorted(abstract)))
     if key not in _cache:
         f = repo.func(qualname)
-        _cache[key] = Eval(repo, f, bindings=bindings, config=config, inline=inline, heap=heap).run()
+        _cache[key] = Eval(repo, f, bindings=bindings, config=config, inline=inline, heap=heap, abstract=abstract).run()
     return _cache[key]
 
 
